@@ -324,7 +324,12 @@ pub fn gen_case_growth(rng: &mut Rng, force_rc: Option<bool>) -> Case {
 	if ncols == 2 {
 		cols.push(ColCfg { btree: rng.chance(1, 2), rc: false, preimage: false, uniform: false, compression: 0, threshold: 4096 });
 	}
-	let page = [rng.below(256) as u8, rng.below(256) as u8];
+	// the first and the last page of the index are boundary values (reindex progress starts at page 0)
+	let page = match rng.below(8) {
+		0 | 1 => [0u8, 0u8],
+		2 => [0xffu8, 0xffu8],
+		_ => [rng.below(256) as u8, rng.below(256) as u8],
+	};
 	// deep mode: the keys also share bit 17, so that the 17-bit index overflows as well and a second
 	// growth starts while the first one may still be queued
 	let deep = rng.chance(1, 3);
